@@ -23,12 +23,12 @@ func c14(c *Ctx) {
 	for _, f := range c.productFuncs() {
 		for _, cs := range engine.Calls(f) {
 			sc := cs.Common().StaticCallee()
-			if sc == nil || engine.PkgPathOf(sc) != "regexp" || !(sc.Name() == "Compile" || sc.Name() == "MustCompile" || sc.Name() == "MatchString") {
+			if sc == nil || engine.PkgPathOf(sc) != "regexp" || !(engine.ShortName(sc) == "Compile" || engine.ShortName(sc) == "MustCompile" || engine.ShortName(sc) == "MatchString") {
 				continue
 			}
 			n++
 			ok, bad := quotedPattern(cs.Common().Args[0])
-			R.Check(ok, "R14.1", c.name(f)+"|"+sc.Name(), P.Pos(cs.Pos()), "pattern is built from constants and QuoteMeta'd parts only",
+			R.Check(ok, "R14.1", c.name(f)+"|"+engine.ShortName(sc), P.Pos(cs.Pos()), "pattern is built from constants and QuoteMeta'd parts only",
 				"the regular expression contains "+bad+" without regexp.QuoteMeta: a delimiter or name holding a regexp metacharacter (\\, [, ...) makes MustCompile panic or alters the match")
 		}
 	}
@@ -44,7 +44,7 @@ func c14(c *Ctx) {
 		var protect []ssa.Instruction
 		var nameVal ssa.Value
 		for _, cs := range engine.Calls(f) {
-			if sc := cs.Common().StaticCallee(); sc != nil && sc.Name() == h.callee && engine.RecvNamed(sc) != nil && engine.RecvNamed(sc).Obj().Name() == "State" {
+			if sc := cs.Common().StaticCallee(); sc != nil && engine.ShortName(sc) == h.callee && engine.RecvNamed(sc) != nil && engine.RecvNamed(sc).Obj().Name() == "State" {
 				protect = append(protect, cs.Instr)
 				nameVal = cs.Common().Args[2]
 			}
@@ -57,7 +57,7 @@ func c14(c *Ctx) {
 					continue
 				}
 				call, isCall := iff.Cond.(*ssa.Call)
-				if !isCall || call.Call.StaticCallee() == nil || call.Call.StaticCallee().Name() != "EqualFold" {
+				if !isCall || call.Call.StaticCallee() == nil || engine.ShortName(call.Call.StaticCallee()) != "EqualFold" {
 					continue
 				}
 				a0, a1 := call.Call.Args[0], call.Call.Args[1]
@@ -104,7 +104,7 @@ func c14(c *Ctx) {
 			if rn != "State" && rn != "Mailbox" {
 				continue
 			}
-			idxs, ok := nameParams[sc.Name()]
+			idxs, ok := nameParams[engine.ShortName(sc)]
 			if !ok {
 				continue
 			}
@@ -116,7 +116,7 @@ func c14(c *Ctx) {
 				okAll, bad := true, ""
 				for _, o := range P.Origins(cs.Common().Args[ix], engine.OriginOpts{Stop: func(v ssa.Value) bool {
 					if call, ok := v.(*ssa.Call); ok {
-						if s2 := call.Call.StaticCallee(); s2 != nil && s2.Name() == "decodeMailboxName" {
+						if s2 := call.Call.StaticCallee(); s2 != nil && engine.ShortName(s2) == "decodeMailboxName" {
 							return true
 						}
 					}
@@ -130,8 +130,8 @@ func c14(c *Ctx) {
 					}
 					okAll, bad = false, o.V.String()
 				}
-				R.Check(okAll, "R14.4", fmtf("%s|%s.%s#%d", c.name(f), rn, sc.Name(), ix), P.Pos(cs.Pos()), "mailbox name argument passed through decodeMailboxName",
-					"the mailbox-name argument of "+rn+"."+sc.Name()+" ("+bad+") reaches the state without Session.decodeMailboxName: non-ASCII names (modified UTF-7) and INBOX in other letter case are not resolved")
+				R.Check(okAll, "R14.4", fmtf("%s|%s.%s#%d", c.name(f), rn, engine.ShortName(sc), ix), P.Pos(cs.Pos()), "mailbox name argument passed through decodeMailboxName",
+					"the mailbox-name argument of "+rn+"."+engine.ShortName(sc)+" ("+bad+") reaches the state without Session.decodeMailboxName: non-ASCII names (modified UTF-7) and INBOX in other letter case are not resolved")
 			}
 		}
 	}
@@ -142,7 +142,7 @@ func c14(c *Ctx) {
 		bad := ""
 		for _, f := range engine.WithClosures(rn) {
 			for _, cs := range engine.Calls(f) {
-				if sc := cs.Common().StaticCallee(); sc != nil && engine.PkgPathOf(sc) == "strings" && (sc.Name() == "Replace" || sc.Name() == "ReplaceAll") {
+				if sc := cs.Common().StaticCallee(); sc != nil && engine.PkgPathOf(sc) == "strings" && (engine.ShortName(sc) == "Replace" || engine.ShortName(sc) == "ReplaceAll") {
 					bad = P.Pos(cs.Pos())
 				}
 			}
@@ -159,7 +159,7 @@ func c14(c *Ctx) {
 			for b := range body {
 				for _, in := range b.Instrs {
 					if call, isCall := in.(*ssa.Call); isCall {
-						if sc := call.Call.StaticCallee(); sc != nil && sc.Name() == "match" {
+						if sc := call.Call.StaticCallee(); sc != nil && engine.ShortName(sc) == "match" {
 							callsMatch = true
 						}
 					}
@@ -178,7 +178,7 @@ func c14(c *Ctx) {
 			for _, s := range srcs {
 				hasSup := engine.AnyBackward(s, engine.FlowOpts{AppendBase: true, AppendElems: true}, func(x ssa.Value) bool {
 					if call, isCall := x.(*ssa.Call); isCall {
-						if sc := call.Call.StaticCallee(); sc != nil && sc.Name() == "listSuperiors" {
+						if sc := call.Call.StaticCallee(); sc != nil && engine.ShortName(sc) == "listSuperiors" {
 							return true
 						}
 					}
@@ -230,9 +230,9 @@ func quotedPattern(v ssa.Value) (bool, string) {
 				return
 			}
 			switch {
-			case sc.Name() == "QuoteMeta" && engine.PkgPathOf(sc) == "regexp":
+			case engine.ShortName(sc) == "QuoteMeta" && engine.PkgPathOf(sc) == "regexp":
 				return
-			case sc.Name() == "Sprintf" && engine.PkgPathOf(sc) == "fmt":
+			case engine.ShortName(sc) == "Sprintf" && engine.PkgPathOf(sc) == "fmt":
 				walk(t.Call.Args[0])
 				if sl, isSl := t.Call.Args[1].(*ssa.Slice); isSl {
 					if al, isAl := sl.X.(*ssa.Alloc); isAl {
@@ -245,7 +245,7 @@ func quotedPattern(v ssa.Value) (bool, string) {
 				if !engine.IsNilConst(t.Call.Args[1]) {
 					ok, bad = false, "fmt.Sprintf operands that cannot be enumerated"
 				}
-			case (sc.Name() == "ReplaceAll" || sc.Name() == "Replace" || sc.Name() == "Join" || sc.Name() == "TrimSpace" || sc.Name() == "TrimSuffix" || sc.Name() == "TrimPrefix") && engine.PkgPathOf(sc) == "strings":
+			case (engine.ShortName(sc) == "ReplaceAll" || engine.ShortName(sc) == "Replace" || engine.ShortName(sc) == "Join" || engine.ShortName(sc) == "TrimSpace" || engine.ShortName(sc) == "TrimSuffix" || engine.ShortName(sc) == "TrimPrefix") && engine.PkgPathOf(sc) == "strings":
 				for _, a := range t.Call.Args {
 					if isStringType(a.Type()) {
 						walk(a)
@@ -263,10 +263,10 @@ func quotedPattern(v ssa.Value) (bool, string) {
 					depth--
 					return
 				}
-				ok, bad = false, "the result of "+sc.Name()+"()"
+				ok, bad = false, "the result of "+engine.ShortName(sc)+"()"
 			}
 		case *ssa.Parameter:
-			ok, bad = false, "parameter "+t.Name()+" of "+t.Parent().Name()
+			ok, bad = false, "parameter "+t.Name()+" of "+engine.ShortName(t.Parent())
 		case *ssa.UnOp:
 			if al, isAl := t.X.(*ssa.Alloc); isAl {
 				for _, st := range engine.StoresTo(al) {
